@@ -186,7 +186,7 @@ func c17FirstResponse(c *core.Ctx) {
 
 func c17HeadersOnce(c *core.Ctx) {
 	const R = "C17.3"
-	c.Rule(R, "headers once per response: polling.headers emits headers exactly once (C16.7); every 200-response site (DoWrite's respond, onDataRequest's acknowledgement) calls p.headers exactly once and merges its result into ResponseHeaders before the status and the write; the server's listener emits [initial_headers ≺] headers exactly once, forwarding the same (headers, req)")
+	c.Rule(R, "headers once per response: polling.headers emits headers exactly once (C16.7); every 200-response site (DoWrite's respond, onDataRequest's acknowledgement) calls p.headers exactly once and merges its result into ResponseHeaders before the status and the write; the server's listener emits [initial_headers ≺] headers exactly once, forwarding the same (headers, req); the listener is attached before the first response and never detached")
 	c16HeadersFn(c, "C17.3a")
 	sites := []string{"transports.(*polling).DoWrite$respond", "transports.(*polling).onDataRequest"}
 	for _, k := range sites {
@@ -243,6 +243,23 @@ func c17HeadersOnce(c *core.Ctx) {
 		}
 		c.Check(R, bsHandshake+"/On(headers)≺OnRequest,NewSocket", hs0.Pos(), okBefore, "the cookie / initial_headers listener is in place before the first response of the session can be written")
 	}
+	// … and stays in place for every later response of the session: nothing detaches it (a response written while or
+	// after the session closes — the `ok` of the POST that carried the close packet, the noop/close that releases the
+	// pending poll — still gets its headers event)
+	nRem := 0
+	for _, u := range c.P.Units {
+		for _, e := range filterEv(events(c, u), "remove", "", "headers") {
+			nRem++
+			c.Violate(R, keyf("%s/RemoveListener(headers)", u.Key), e.Pos(), "the per-session headers listener is detached: responses written afterwards get no headers event (and no CORS / cookie processing by listeners)")
+		}
+		for _, cl := range u.Calls() {
+			if (cl.Name == "RemoveAllListeners" || cl.Name == "Clear") && cl.Recv != nil && core.TypeName(u.Info().TypeOf(cl.Recv)) == "Transport" {
+				nRem++
+				c.Violate(R, keyf("%s/%s()@transport", u.Key, cl.Name), cl.Pos(), "every listener of the transport, the headers listener included, is detached")
+			}
+		}
+	}
+	c.Check(R, bsHandshake+"/headers-listener-never-detached", hs0Pos(hs0, l), nRem == 0, keyf("%d site(s) remove the headers listener from a transport", nRem))
 	g := l.Graph()
 	hd := filterEv(events(c, l), "emit", "server", "headers")
 	ih := filterEv(events(c, l), "emit", "server", "initial_headers")
@@ -899,4 +916,11 @@ func c17HeaderValueTable(c *core.Ctx) {
 		}
 		c.Check(R, "types.(*cors).configureAllowedHeaders/alias-only-when-unset", u.Pos(), n == 1 && ok, "allowedHeaders = options.Headers exactly on the allowedHeaders == nil edge (a configured list is never replaced by the alias or by the request's own header list)")
 	}
+}
+
+func hs0Pos(hs0, l *core.Unit) token.Pos {
+	if hs0 != nil {
+		return hs0.Pos()
+	}
+	return l.Pos()
 }
